@@ -64,6 +64,7 @@ type Contract struct {
 	// Closure contracts: parameters of the form `apply fn(i, j) == expr` give
 	// meaning to function-typed parameters; see spec.go.
 	ReplayReq []string // extra input restrictions for the replay sweep (evaluation cost)
+	OpaqueFns  []string // spec functions kept uninterpreted in this function's VCs
 	SkipSafety bool    // run-time-panic obligations are assumed, not proved (effects-only contract)
 	Nilable   []string // parameters that may be nil (default: pointer-like parameters are required non-nil)
 	Preserves []string // pointer expressions whose pointee cells are unchanged by the function
@@ -340,6 +341,8 @@ func (cs *ContractSet) parseFile(fset *token.FileSet, pkgPath string, f *ast.Fil
 			} else {
 				cs.Errors = append(cs.Errors, ln.pos+": use-step outside loop")
 			}
+		case "opaque-fn":
+			cur.OpaqueFns = append(cur.OpaqueFns, strings.Fields(rest)...)
 		case "skip-safety":
 			cur.SkipSafety = true
 		case "ghost-set":
